@@ -157,10 +157,21 @@ impl<C: Config, Q: Query> Snapshot<C, Q> {
                 let fingerprint = self.engine().hash(&value);
                 let updated = old_node_info.value_fingerprint() != fingerprint;
 
+                // A projection hands the firewalls it reaches on to its
+                // callers. When it is re-run from below (backward projection
+                // propagation) no caller edge is dirty, so a changed firewall
+                // set with an unchanged value would go unnoticed above and the
+                // callers would keep repairing the firewalls of the old set.
+                let firewall_set_changed = old_kind.is_projection()
+                    && old_node_info.transitive_firewall_callees_fingerprint()
+                        != lock_guard
+                            .query_computing()
+                            .recorded_tfc_fingerprint(self.engine());
+
                 let mut write_buffer = self.engine().new_write_transaction();
 
                 // if fingerprint has changed, we do dirty propagation
-                if updated {
+                if updated || firewall_set_changed {
                     write_buffer = self
                         .engine()
                         .dirty_propagate_from_batch(
